@@ -154,6 +154,8 @@ type Method struct {
 type Mapped struct {
 	Attr string `json:"attr"`
 	Wire string `json:"wire,omitempty"`
+	// Val: validations given in the mapping itself (Param("id", func() { Pattern(...) })), on top of the attribute's own
+	Val *Validation `json:"val,omitempty"`
 }
 
 // HTTPMap is the HTTP transport mapping of a method.
